@@ -1,5 +1,8 @@
 import Bermuda.Model.Json
 import Bermuda.Model.Frame
+import Bermuda.Model.FrameRich
+import Bermuda.Model.FrameStatics
+import Bermuda.Model.FrameDF
 import Bermuda.Spec.C14
 open Lean Bermuda Bermuda.Frame
 
@@ -44,6 +47,129 @@ def matrixToJson (m : Matrix) : Json :=
     ("incremental", m.incremental),
     ("entries", Json.arr (m.entries.map fun e =>
       Json.arr #[natJ e.1.1, natJ e.1.2.1, natJ e.1.2.2.1, natJ e.1.2.2.2, ratToJson e.2]).toArray)]
+
+
+/-! rich matrix wire: entry `[i,f,j,k, rval]`, rval `["p",val] | ["P",val] | ["d",id,val] | ["D",id,val] | ["m",id]` -/
+
+def rvalToJson : RVal → Json
+  | .plain v => Json.arr #["p", Val.toJson v]
+  | .predicted v => Json.arr #["P", Val.toJson v]
+  | .disagg id v => Json.arr #["d", natJ id, Val.toJson v]
+  | .disaggPred id v => Json.arr #["D", natJ id, Val.toJson v]
+  | .missing id => Json.arr #["m", natJ id]
+
+def rvalFromJson (j : Json) : Except String RVal := do
+  let a ← j.getArr?
+  match a.toList with
+  | [tag, v] =>
+    match ← tag.getStr? with
+    | "p" => return .plain (← Val.fromJson v)
+    | "P" => return .predicted (← Val.fromJson v)
+    | "m" => return .missing (← v.getNat?)
+    | o => throw s!"bad rval tag {o}"
+  | [tag, id, v] =>
+    match ← tag.getStr? with
+    | "d" => return .disagg (← id.getNat?) (← Val.fromJson v)
+    | "D" => return .disaggPred (← id.getNat?) (← Val.fromJson v)
+    | o => throw s!"bad rval tag {o}"
+  | _ => throw "bad rval"
+
+def indexToFields (ix : MatrixIndex) : List (String × Json) :=
+  [("slices", Json.arr (ix.slices.map Metadata.toJson).toArray),
+   ("fields", Json.arr (ix.fields.map Json.str).toArray),
+   ("exp_origin", intJ ix.expOrigin), ("dev_origin", intJ ix.devOrigin),
+   ("exp_resolution", intJ ix.expResolution), ("dev_resolution", intJ ix.devResolution)]
+
+def richToJson (m : RichMatrix) : Json :=
+  let nF := m.index.fields.length
+  Json.mkObj (indexToFields m.index ++ [
+    ("shape", Json.arr #[natJ m.index.slices.length, natJ nF, natJ m.nPeriods, natJ m.nDevs]),
+    ("incremental", m.incremental),
+    ("entries", Json.arr ((m.entries nF).map fun e =>
+      Json.arr #[natJ e.1.1, natJ e.1.2.1, natJ e.1.2.2.1, natJ e.1.2.2.2, rvalToJson e.2]).toArray)])
+
+def indexFromJson (j : Json) : Except String MatrixIndex := do
+  return { slices := ← (← (← j.getObjVal? "slices").getArr?).toList.mapM Metadata.fromJson,
+           fields := ← (← (← j.getObjVal? "fields").getArr?).toList.mapM (·.getStr?),
+           expOrigin := ← jInt? (← j.getObjVal? "exp_origin"), devOrigin := ← jInt? (← j.getObjVal? "dev_origin"),
+           expResolution := ← jInt? (← j.getObjVal? "exp_resolution"),
+           devResolution := ← jInt? (← j.getObjVal? "dev_resolution") }
+
+def richFromJson (j : Json) : Except String RichMatrix := do
+  let ix ← indexFromJson j
+  let shape ← (← (← j.getObjVal? "shape").getArr?).toList.mapM (·.getNat?)
+  let es ← (← (← j.getObjVal? "entries").getArr?).toList.mapM fun e => do
+    match (← e.getArr?).toList with
+    | [a, b, c, d, v] => pure (((← a.getNat?), (← b.getNat?), (← c.getNat?), (← d.getNat?)), some (← rvalFromJson v))
+    | _ => throw "bad entry"
+  return { index := ix, nPeriods := shape[2]?.getD 0, nDevs := shape[3]?.getD 0, assigns := es,
+           incremental := ← (← j.getObjVal? "incremental").getBool? }
+
+def optInt (j : Json) (k : String) : Except String (Option Int) :=
+  match optField j k with
+  | some v => do pure (some (← jInt? v))
+  | none => pure none
+
+def optStrList (j : Json) (k : String) : Except String (Option (List String)) :=
+  match optField j k with
+  | some v => do pure (some (← (← v.getArr?).toList.mapM (·.getStr?)))
+  | none => pure none
+
+/-! frames of `io/array.py`: period entry `["d",[y,m,d]] | ["s","2020Q1"]` -/
+
+def periodEntryFromJson (j : Json) : Except String PeriodEntry := do
+  match (← j.getArr?).toList with
+  | [tag, v] =>
+    match ← tag.getStr? with
+    | "d" => return .date (← Date.fromJson v)
+    | "s" => return .text (← v.getStr?)
+    | o => throw s!"bad period tag {o}"
+  | _ => throw "bad period entry"
+
+def valDictFromJson (j : Json) : Except String (Dict Val) := dictFromJson Val.fromJson j
+
+def staticsRowsFromJson (j : Json) : Except String (List StaticsRow) := do
+  (← j.getArr?).toList.mapM fun r => do
+    match (← r.getArr?).toList with
+    | [p, es] => pure { period := ← periodEntryFromJson p, entries := ← valDictFromJson es }
+    | _ => throw "bad statics row"
+
+def arrayFrameFromJson (j : Json) : Except String ArrayFrame := do
+  let cols ← (← (← j.getObjVal? "cols").getArr?).toList.mapM (·.getStr?)
+  let rows ← (← (← j.getObjVal? "rows").getArr?).toList.mapM fun r => do
+    match (← r.getArr?).toList with
+    | [p, vs] => pure ((← periodEntryFromJson p), (← (← vs.getArr?).toList.mapM Val.fromJson))
+    | _ => throw "bad array row"
+  return { cols := cols, rows := rows }
+
+def optDate (j : Json) (k : String) : Except String (Option Date) :=
+  match optField j k with
+  | some v => do pure (some (← Date.fromJson v))
+  | none => pure none
+
+def implCells (j : Json) (k : String) : Except String (Option (List Cell)) :=
+  match optField j k with
+  | some v => match v.getObjVal? "ok" with
+    | .ok cs => do pure (some (← cellsFromJson cs))
+    | .error _ => pure none
+  | none => pure none
+
+def parsedRows {α} (rows : List (PeriodEntry × α)) : Option (List (Date × α)) :=
+  rows.mapM fun r => match r.1.parse with | .ok d => some (d, r.2) | .error _ => none
+
+def edgeRowsToJson (rs : List EdgeRow) : Json :=
+  Json.arr (rs.map fun r => Json.arr #[r.period.toJson, r.evaluation.toJson, dictToJson Val.toJson r.entries]).toArray
+
+def edgeRowsFromJson (j : Json) : Except String (List EdgeRow) := do
+  (← j.getArr?).toList.mapM fun r => do
+    match (← r.getArr?).toList with
+    | [p, e, es] => pure { period := ← Date.fromJson p, evaluation := ← Date.fromJson e, entries := ← valDictFromJson es }
+    | _ => throw "bad edge row"
+
+def getBoolD (j : Json) (k : String) (d : Bool) : Bool :=
+  match optField j k with
+  | some v => (v.getBool?.toOption).getD d
+  | none => d
 
 def handle (j : Json) : Except String Json := do
   let op ← (← j.getObjVal? "op").getStr?
@@ -96,6 +222,119 @@ def handle (j : Json) : Except String Json := do
       | some v => do pure (Json.bool (Spec.C14.backSpec t (← cellsFromJson v)))
       | none => pure Json.null
     return Json.mkObj [("matrix", exc matrixToJson m), ("back", exc cellsToJson back), ("spec", spec)]
+  | "rich" =>
+    let evalRes ← optInt j "eval_resolution"
+    let fields ← optStrList j "fields"
+    let m := toRich t evalRes fields
+    let back := m.bind fromRich
+    -- Spec clauses on the IMPLEMENTATION's matrix and on its round trip
+    let (implMatrixBack, placed, nothingElse) ← match optField j "impl_matrix" with
+      | some v => do
+        let im ← richFromJson v
+        pure (exc cellsToJson (fromRich im), Json.bool (Spec.C14.richPlacedSpec im t),
+              Json.bool (Spec.C14.richNothingElseSpec im t))
+      | none => pure (Json.null, Json.null, Json.null)
+    let (spec, mixed) ← match optField j "impl_back", optField j "impl_matrix" with
+      | some v, some mv => do
+        let out ← cellsFromJson v
+        let ix ← indexFromJson mv
+        pure (Json.bool (Spec.C14.richSpec ix.fields t out), Json.bool (Spec.C14.richMixedSpec ix t out))
+      | _, _ => pure (Json.null, Json.null)
+    return Json.mkObj [("matrix", exc richToJson m), ("back", exc cellsToJson back),
+                       ("impl_matrix_back", implMatrixBack), ("spec", spec), ("mixed", mixed),
+                       ("placed", placed), ("nothing_else", nothingElse)]
+  | "matrix_opt" =>
+    let evalRes ← optInt j "eval_resolution"
+    let fields ← optStrList j "fields"
+    let m := toMatrixOpt t evalRes fields
+    let back := m.bind fromMatrix
+    return Json.mkObj [("matrix", exc matrixToJson m), ("back", exc cellsToJson back)]
+  | "statics" =>
+    let rows ← staticsRowsFromJson (← j.getObjVal? "rows")
+    let ev ← optDate j "evaluation"
+    let res ← optInt j "res"
+    let md ← Metadata.fromJson (← j.getObjVal? "md")
+    let back := fromStatics rows ev res md
+    -- Spec on the implementation's output; `spec_res` = the month distance of the periods (from the harness)
+    let spec ← match ← implCells j "impl", parsedRows (rows.map fun r => (r.period, r.entries)), ← optInt j "spec_res" with
+      | some out, some prs, some r =>
+        let e := match ev with
+          | some x => x
+          | none => Spec.C14.periodEndOf ((maxDate (prs.map (·.1))).getD Date.min) r
+        pure (Json.bool (Spec.C14.staticsSpec prs r e md out))
+      | _, _, _ => pure Json.null
+    return Json.mkObj [("back", exc cellsToJson back), ("spec", spec)]
+  | "right_edge" =>
+    let fr := toRightEdgeFrame t
+    let spec ← match optField j "impl_rows" with
+      | some v => do pure (Json.bool (Spec.C14.rightEdgeSpec t (← edgeRowsFromJson v)))
+      | none => pure Json.null
+    -- the frame without its evaluation column, read back as a statics frame
+    let ev ← optDate j "evaluation"
+    let res ← optInt j "res"
+    let md ← Metadata.fromJson (← j.getObjVal? "md")
+    let back := fr.bind fun rows =>
+      fromStatics (rows.map fun r => { period := .date r.period, entries := r.entries }) ev res md
+    let backSpec ← match ← implCells j "impl_back" with
+      | some out => pure (Json.bool (Spec.C14.edgeBackSpec t out))
+      | none => pure Json.null
+    return Json.mkObj [("frame", exc edgeRowsToJson fr), ("spec", spec), ("back", exc cellsToJson back),
+                       ("back_spec", backSpec)]
+  | "array_full" =>
+    let fr ← arrayFrameFromJson (← j.getObjVal? "frame")
+    let field ← (← j.getObjVal? "field").getStr?
+    let md ← Metadata.fromJson (← j.getObjVal? "md")
+    let res ← optInt j "res"
+    let evalRes ← optInt j "eval_res"
+    let fromEnd := getBoolD j "from_end" true
+    let back := fromArrayFrameFull fr field res evalRes fromEnd md
+    -- Spec: needs the period resolution in force (`spec_res`, the month distance of the periods, from the harness)
+    let spec ← match ← implCells j "impl", parsedRows fr.rows, ← optInt j "spec_res" with
+      | some out, some prs, some r =>
+        let er := effectiveEvalResolution fr.cols r evalRes
+        pure (Json.bool (Spec.C14.arrayFullSpec field md r (fromEnd || er.isSome) (columnLags fr.cols er) prs out))
+      | _, _, _ => pure Json.null
+    return Json.mkObj [("back", exc cellsToJson back), ("spec", spec)]
+  | "builder" =>
+    let frames ← (← (← j.getObjVal? "frames").getArr?).toList.mapM arrayFrameFromJson
+    let fields ← strList j "fields"
+    let md ← Metadata.fromJson (← j.getObjVal? "md")
+    let res ← optInt j "res"
+    let evalRes ← optInt j "eval_res"
+    let fromEnd := getBoolD j "from_end" true
+    let back := arrayTriangleBuilder frames fields res evalRes fromEnd md
+    let spec ← match ← implCells j "impl", frames.mapM (fun f => parsedRows f.rows), ← optInt j "spec_res" with
+      | some out, some prss, some r =>
+        let fs := (fields.zip (frames.zip prss)).map fun p =>
+          let er := effectiveEvalResolution p.2.1.cols r evalRes
+          (p.1, columnLags p.2.1.cols er, p.2.2)
+        let anyEr := frames.all fun f => (effectiveEvalResolution f.cols r evalRes).isSome
+        pure (Json.bool (Spec.C14.builderSpec fs md r (fromEnd || anyEr) out))
+      | _, _, _ => pure Json.null
+    return Json.mkObj [("back", exc cellsToJson back), ("spec", spec)]
+  | "parse_date" =>
+    let texts ← strList j "texts"
+    return Json.mkObj [("dates", Json.arr (texts.map fun s => exc Date.toJson (parseDate s)).toArray)]
+  | "frame_roundtrip" =>
+    -- the in-memory data frames: model of the round trip incl. the readers' column-type check
+    let fieldCols ← strList j "field_cols"
+    let detailCols ← strList j "detail_cols"
+    let lossCols ← strList j "loss_detail_cols"
+    let w := wideFrameRoundTrip t fieldCols detailCols lossCols
+    let l := longFrameRoundTrip t lossCols
+    let specW ← match ← implCells j "impl_wide" with
+      | some out => pure (Json.bool (Spec.C14.wideSpec t out && Spec.C14.slicesSpec false t out))
+      | none => pure Json.null
+    let dt (ds : DateDtypes) : Json := Json.mkObj (ds.map fun p => (p.1, Json.str (match p.2 with
+      | .datetime64 => "datetime64" | .period => "period" | .dates => "dates")))
+    return Json.mkObj [("wide", exc cellsToJson w), ("long", exc cellsToJson l), ("spec_wide", specW),
+                       ("wide_dtypes", dt (wideFrameDtypes t)), ("long_dtypes", dt (longFrameDtypes t))]
+  | "back_spec" =>
+    -- Spec only (no model): `impl_back` holds the same cells as `cells`, numbers as floats
+    let spec ← match ← implCells j "impl_back" with
+      | some out => pure (Json.bool (Spec.C14.backSpec t out))
+      | none => pure Json.null
+    return Json.mkObj [("spec", spec)]
   | o => throw s!"unknown op {o}"
 
 def main : IO Unit := serve handle
